@@ -10,7 +10,8 @@ package pubsub
 // rpcWithMessages wraps the accepted protobuf itself (same pointer): the forwarded copy is
 // field-for-field the message that was accepted, so its signature stays valid.
 //@ func rpcWithMessages
-//@   property C06
+//@   property C06 C12
+//@   safe
 //@   modifies nothing
 //@   ensures fresh: fresh(result)
 //@   ensures same-messages: result.RPC.Publish == msgs
@@ -19,6 +20,7 @@ package pubsub
 // rpcWithControl wraps exactly the given messages and control entries in a fresh RPC.
 //@ func rpcWithControl
 //@   property C12 C17
+//@   safe
 //@   modifies nothing
 //@   ensures fresh: result != nil && fresh(result) && result.RPC.Control != nil && fresh(result.RPC.Control)
 //@   ensures contents: result.RPC.Publish == msgs && result.RPC.Control.Ihave == ihave && result.RPC.Control.Iwant == iwant && result.RPC.Control.Graft == graft &&
